@@ -20,7 +20,7 @@ import ast
 import re as _re
 from typing import Any, Dict, List, Optional, Set, Tuple
 
-from .core import AnalysisError, Ctx, assigned_names, dotted, names_in, norm, stmts_local, walk_local
+from .core import AnalysisError, Ctx, assigned_names, dotted, effective_body, names_in, norm, stmts_local, walk_local
 from .paths import Path, enumerate_paths
 
 try:
@@ -146,7 +146,7 @@ class AnnotateModel:
         fn = self.ctx.repo.func(f"utils.{name}")
         if fn is None:
             return False, f"utils.{name} not found", None
-        body = [s for s in fn.body if not (isinstance(s, ast.Expr) and isinstance(s.value, ast.Constant))]
+        body = effective_body(fn)
         if len(body) != 1 or not isinstance(body[0], ast.Return):
             return False, "body is not a single return", fn
         c = body[0].value
